@@ -261,7 +261,8 @@ int main()
       size_t len;
       char* text = hxCStr(l.tok[1], len);
       {
-        String in(text, len);
+        String in;
+        in.attach(text, len); // no copy: stripComments scans the exactly sized heap block (ASan sees a read behind the NUL)
         String out = Json::stripComments(in);
         obHex((const char*)out, out.length());
       }
